@@ -217,6 +217,8 @@ class Type4Tag(nfc.tag.Tag):
         def _read_binary(self, offset, size):
             (p1, p2) = pack(">H", offset)
             max_data = min(self._max_le, size)
+            if not self.tag._extended_length_support:
+                max_data = min(max_data, 256)
             log.debug("read_binary from %d to %d", offset, offset + max_data)
             return self.tag.send_apdu(0, 0xB0, p1, p2, mrl=max_data)
 
